@@ -187,8 +187,14 @@ func c20Model(body *hclsyntax.Body, text string, pos int, fns map[string]schema.
 		inside := pos >= open.End.Byte && pos <= cls.Start.Byte
 		if len(f.Params) == 0 && f.VarParam == nil {
 			r := fc.Range()
+			inParens := inside
 			inside = pos > r.Start.Byte && pos < r.End.Byte
 			if pos == r.Start.Byte || pos == r.End.Byte {
+				boundary = true
+			}
+			if len(fc.Args) > 0 && inside && !inParens {
+				// on the name of a parameterless call that was given arguments: "on a call of a known
+				// parameterless function" and "more arguments than parameters" both apply - either answer
 				boundary = true
 			}
 		} else if pos == open.Start.Byte || pos == cls.End.Byte {
@@ -217,6 +223,10 @@ func c20Model(body *hclsyntax.Body, text string, pos int, fns map[string]schema.
 		np++
 	}
 	if len(f.Params) == 0 && f.VarParam == nil {
+		if len(best.Args) > 0 {
+			// more arguments than parameters and no variadic one: none
+			return c20Expect{must: !boundary, none: true}
+		}
 		return c20Expect{must: !boundary, sigName: best.Name, nparams: 0}
 	}
 	slot := commasBefore(text, best.OpenParenRange.End.Byte, pos)
